@@ -1090,14 +1090,17 @@ class Interp:
 
     def ex_JoinedStr(self, e, env):
         parts = []
+        symbolic = False
         for v in e.values:
             if isinstance(v, ast.Constant):
                 parts.append(v.value)
             else:
                 x = self.eval(v.value, env)
                 if isinstance(x, (SV, SArr, SObj)):
-                    from .models import SymStr
-                    return SymStr([p if isinstance(p, str) else p for p in parts] + ["<sym>"])
+                    # constructor term of the string (A-STR-FREE): literal pieces and the symbolic values formatted into it, in order
+                    symbolic = True
+                    parts.append(x if (isinstance(x, SV) and v.format_spec is None and v.conversion == -1) else "<sym>")
+                    continue
                 spec = ""
                 if v.format_spec is not None:
                     spec = self.eval(v.format_spec, env)
@@ -1106,6 +1109,9 @@ class Interp:
                 elif v.conversion == 115:
                     x = str(x)
                 parts.append(format(x, spec))
+        if symbolic:
+            from .models import SymStr
+            return SymStr(parts)
         return "".join(parts)
 
     def ex_FormattedValue(self, e, env):
